@@ -235,12 +235,17 @@ def rule_guard(run):
               'tsat range test is %s' % (norm(v) if v is not None else None), where=ts.where())
     # tsat really inverts sat: f(t) = sat(t) - p handed to the root finder
     txt = norm(ts.node)
-    fnest = run.prog.nested(ts, 'f', required=False)
-    if fnest is None or 'fsolve(f, t0)' not in txt:
+    # the callback is whatever is handed to fsolve; its parameter may be unpacked (the solver passes a 1-element array)
+    calls = [c for c in ast.walk(ts.node) if isinstance(c, ast.Call) and call_name(c) == 'fsolve' and c.args and isinstance(c.args[0], ast.Name)]
+    fnest = run.prog.nested(ts, calls[0].args[0].id, required=False) if len(calls) == 1 else None
+    if fnest is None:
         run.unknown('t2thermo.tsat :: root of sat(t) - p', 'root-finding idiom not recognised', where=ts.where())
     else:
         from ..formula import check_return
-        check_return(run, 't2thermo.tsat :: root of sat(t) - p', fnest, 'sat(t) - p', 'tsat does not solve sat(t) - p = 0')
+        a_ = fnest.params[0] if fnest.params else 't'
+        P = ts.params[0]
+        check_return(run, 't2thermo.tsat :: root of sat(t) - p', fnest, 'sat(%s) - %s' % (a_, P), 'tsat does not solve sat(t) - p = 0',
+                     alternatives=('sat(%s[0]) - %s' % (a_, P), 'sat(%s.item()) - %s' % (a_, P)))
 
 
 def rule_sibconst(run):
@@ -318,7 +323,16 @@ def rule_clamp(run):
         pass
 
 
+def rule_solverarg(run):
+    run.rule('SOLVERARG', 'tsat() inverts sat() with scipy.optimize.fsolve, which calls back with a 1-element array: the value must be '
+             'unpacked before it reaches a math-module function (sat uses math.exp), or the inversion raises for every pressure', floor=1)
+    from .arrsafe import solverarg_rule
+    solverarg_rule(run, 't2thermo')
+    run.trust('the installed NumPy version is read from the dist-info directory name under /venv/lib (nothing is imported)')
+
+
 def check(run):
+    run.guarded('SOLVERARG', rule_solverarg)
     run.guarded('POWNAME', rule_powname)
     run.guarded('BOUNDS', rule_bounds)
     run.guarded('GUARD', rule_guard)
